@@ -76,6 +76,92 @@ fn c01_reward_in_pool_token(seed: u64) -> Acc {
     acc
 }
 
+/// Directed scenario shared by C01 / C05 / C07: two pools over the SAME pair of mints (spacing 64 and 128), one
+/// position in each with the same bounds and the same owner, fees earned in both. Then liquidity and fee instructions
+/// are run on one pool's accounts with the OTHER pool's position (and its token account) in the position slots - v1
+/// and v2. The program refuses them; whatever it does, every step goes through the caller's monitor.
+pub fn directed_position_of_a_twin_pool(seed: u64, mon: &mut dyn Monitor) -> Acc {
+    use crate::world::*;
+    let mut acc = Acc::default();
+    let mut w = World::new(crate::rnd::rng(seed));
+    let c = w.add_config(1000);
+    let u = w.add_user();
+    let (m1, m2) = (w.add_spl_mint(6), w.add_spl_mint(6));
+    let (Ok(px), Ok(py)) = (w.add_pool(c, m1, m2, 64, 3000, 1u128 << 64, false), w.add_pool(c, m1, m2, 128, 10000, 1u128 << 64, false)) else {
+        acc.count("harness_errors");
+        return acc;
+    };
+    let mut run = |w: &mut World, ix: crate::ix::Ix, acc: &mut Acc| -> bool {
+        let o = w.exec(ix);
+        acc.evaluations += 1;
+        mon.after(w, &o, acc);
+        o.ok()
+    };
+    let mut idx = vec![];
+    let mut ok = true;
+    for (p, l) in [(px, 1_000_000_000u128), (py, 2_000_000_000u128)] {
+        w.ensure_tick_array(p, -1280, false);
+        w.ensure_tick_array(p, 1280, false);
+        w.ensure_tick_array(p, 0, false);
+        let (ix, info) = w.open_position_ix(p, u, -1280, 1280, false);
+        ok &= run(&mut w, ix, &mut acc);
+        w.positions.push(info);
+        let i = w.positions.len() - 1;
+        idx.push(i);
+        let ix = w.modify_v2(i).increase_liquidity_v2(l, u64::MAX, u64::MAX, None);
+        ok &= run(&mut w, ix, &mut acc);
+    }
+    for round in 0..2 {
+        for p in [px, py] {
+            for a_to_b in [true, false] {
+                let ix = w.swap_ix(p, u, 3_000_000 + round, 0, 0, true, a_to_b, true);
+                ok &= run(&mut w, ix, &mut acc);
+            }
+        }
+    }
+    for i in &idx {
+        let ix = w.update_fees_ix(*i);
+        ok &= run(&mut w, ix, &mut acc);
+    }
+    if !ok {
+        acc.notes.push("HARNESS-ERROR directed twin-pool scenario: set-up failed".into());
+        acc.count("harness_errors");
+        return acc;
+    }
+    let (ix_, iy) = (idx[0], idx[1]);
+    let (posx, posy) = (w.positions[ix_].clone(), w.positions[iy].clone());
+    // (instruction built for position `host` of one pool, position slots replaced by those of `guest` of the other pool)
+    let mut hostile: Vec<crate::ix::Ix> = vec![];
+    for (host, guest) in [(ix_, &posy), (iy, &posx)] {
+        let sub = |i: crate::ix::Ix| { let i = i.with_key("position", guest.position); if i.slot("position_token_account").is_some() { i.with_key("position_token_account", guest.token_account) } else { i } };
+        hostile.push(sub(w.collect_fees_ix(host, false)));
+        hostile.push(sub(w.collect_fees_ix(host, true)));
+        hostile.push(sub(w.modify_v1(host).increase_liquidity(500_000_000, u64::MAX, u64::MAX)));
+        hostile.push(sub(w.modify_v2(host).increase_liquidity_v2(500_000_000, u64::MAX, u64::MAX, None)));
+        hostile.push(sub(w.modify_v1(host).decrease_liquidity(400_000_000, 0, 0)));
+        hostile.push(sub(w.modify_v2(host).decrease_liquidity_v2(400_000_000, 0, 0, None)));
+        hostile.push(sub(w.update_fees_ix(host)));
+    }
+    for ix in hostile {
+        let name = ix.name;
+        let accepted = run(&mut w, ix, &mut acc);
+        acc.count("twin_pool_position_attempts");
+        acc.situation(format!("twin_pool_position:{name}:{}", if accepted { "accepted" } else { "refused" }));
+        // give the shadow ledgers something to settle against
+        for p in [px, py] {
+            let ix = w.swap_ix(p, u, 1_000_000, 0, 0, true, true, true);
+            run(&mut w, ix, &mut acc);
+            let ix = w.swap_ix(p, u, 1_000_000, 0, 0, true, false, true);
+            run(&mut w, ix, &mut acc);
+        }
+        for i in &idx {
+            let ix = w.update_fees_ix(*i);
+            run(&mut w, ix, &mut acc);
+        }
+    }
+    acc
+}
+
 pub fn c01(tier: Tier, seed: u64) -> i32 {
     let mut rep = Report::new("C01", tier, seed);
     rep.rule = "history workload H on plain SPL pools; after every successful instruction (every prefix) oracle A: vault >= protocol fees owed + sum over all Position accounts (bank scan) of (fee_owed + pending fees + exact floor amounts of withdrawing all liquidity at the current price), exact big-integer arithmetic; oracle B at checkpoints and at the end: on a clone of the bank, in random order, update-fees / remove all liquidity / collect fees for every position and collect protocol fees - every step must succeed; oracle C: a signer that only swaps never ends with >= of both tokens and > of one. distinct = (instruction, ticks crossed bucket)".into();
@@ -90,8 +176,10 @@ pub fn c01(tier: Tier, seed: u64) -> i32 {
     );
     let mut acc = acc;
     acc.merge(c01_reward_in_pool_token(seed ^ 0xc01));
+    acc.merge(directed_position_of_a_twin_pool(seed ^ 0x7717, &mut C01::new(1)));
     rep.acc = acc;
     rep.floor("directed_reward_in_pool_token_scenarios", 4);
+    rep.floor("twin_pool_position_attempts", 14);
     rep.floor("claim_checks_with_liquidity", 5000);
     rep.floor("drains", 500);
     rep.floor("drain_steps", 2000);
@@ -164,6 +252,63 @@ fn c06_one_pool_twice(seed: u64) -> Acc {
     acc
 }
 
+/// The fee of a swap step is ceil(amount_in x rate / (1e6 - rate)). The function the swap loop calls for it is swept
+/// directly on structured inputs: all fee rates of interest x curve inputs around every power of two, around the
+/// values where amount x rate crosses 2^32 / 2^63 / 2^64 / 2^96, at u64::MAX, and a random sample - against exact
+/// integer arithmetic.
+fn c06_fee_function(seed: u64) -> Acc {
+    use num_bigint::BigUint;
+    use rand::Rng;
+    let mut acc = Acc::default();
+    let mut r = crate::rnd::rng(seed);
+    let mut rates: Vec<u128> = vec![1, 2, 100, 300, 500, 2500, 3000, 10_000, 30_000, 59_999, 60_000, 65_535, 65_536, 99_999, 100_000];
+    for _ in 0..10 {
+        rates.push(r.gen_range(1..=100_000));
+    }
+    for rate in rates {
+        let d = 1_000_000 - rate;
+        let mut xs: Vec<u128> = vec![0, 1, u64::MAX as u128, u64::MAX as u128 - 1];
+        for k in 1..=64u32 {
+            for dd in -2i128..=2 {
+                xs.push(((1u128 << k) as i128 + dd).max(0) as u128);
+            }
+        }
+        for edge in [1u128 << 32, 1u128 << 63, 1u128 << 64, 1u128 << 96] {
+            let c = edge / rate;
+            for dd in -400i128..=400 {
+                xs.push((c as i128 + dd).max(0) as u128);
+            }
+            // ... and where the PRODUCT comes within one divisor of the edge
+            for dd in 0..4u128 {
+                xs.push((edge.saturating_sub(d * dd)) / rate);
+            }
+        }
+        for _ in 0..300 {
+            xs.push(crate::rnd::log_u64(&mut r) as u128);
+        }
+        for x in xs {
+            if x > u64::MAX as u128 {
+                continue;
+            }
+            acc.evaluations += 1;
+            acc.count("fee_function_cases");
+            let want = (BigUint::from(x) * BigUint::from(rate) + BigUint::from(d - 1)) / BigUint::from(d);
+            match whirlpool::math::checked_mul_div_round_up(x, rate, d) {
+                Ok(got) => {
+                    if BigUint::from(got) != want {
+                        acc.violation("c06:fee_function".to_string(), format!("fee on a curve input of {x} at rate {rate}: got {got}, ceil({x} x {rate} / {d}) = {want}"), serde_json::json!({"amount_in": x.to_string(), "fee_rate": rate}));
+                    }
+                }
+                Err(e) => {
+                    // x <= u64::MAX and rate <= 1e5: the product fits u128, so the function has no reason to fail
+                    acc.violation("c06:fee_function_failed".to_string(), format!("fee on a curve input of {x} at rate {rate} failed: {e:?}"), serde_json::json!({"amount_in": x.to_string(), "fee_rate": rate}));
+                }
+            }
+        }
+    }
+    acc
+}
+
 pub fn c06(tier: Tier, seed: u64) -> i32 {
     let mut rep = Report::new("C06", tier, seed);
     rep.rule = "every successful swap of the history workload on plain-token pools (static and adaptive fee): the per-step records from the swap-loop hook are re-priced: fee == ceil(in*rate/(1e6-rate)) or the unspendable remainder on a non-reaching exact-in step; sum(in+fee) == what left the trader == what entered the vault, sum(out) likewise, no other account of the trader changes; protocol fee owed grows by sum floor(fee*p/1e4), fee growth of the input token by sum floor((fee-cut)*2^64/L_step) (mod 2^128), the other token's owed/growth unchanged; the Traded event equals all of these; both legs of every successful two-hop (v1 and v2, all four direction combinations) get the same bookkeeping, event and vault/trader conservation checks per pool; collect_protocol_fees pays exactly the owed amounts and zeroes them. distinct = (instruction, mode, direction, #steps bucket, protocol fee rate, fee rate, adaptive)".into();
@@ -177,8 +322,10 @@ pub fn c06(tier: Tier, seed: u64) -> i32 {
     );
     let mut acc = acc;
     acc.merge(c06_one_pool_twice(seed ^ 0xc06));
+    acc.merge(c06_fee_function(seed ^ 0xfee));
     rep.acc = acc;
     rep.floor("directed_two_hops_over_one_pool", 8);
+    rep.floor("fee_function_cases", 50_000);
     rep.floor("swaps_checked", 2000);
     rep.floor("multi_step_swaps", 500);
     rep.floor("swaps_over_zero_liquidity_gap", 100);
@@ -198,7 +345,10 @@ pub fn c07(tier: Tier, seed: u64) -> i32 {
         move |_r| HistCfg { ops: 130, spl_only: false, seed_growth: true, lifecycle_ext: true, w_swap: 45, w_liq: 30, w_fees: 18, w_lifecycle: 7, w_clock: 2, w_setters: 2, ..Default::default() },
         || vec![Box::new(C07::default()) as Box<dyn Monitor>],
     );
+    let mut acc = acc;
+    acc.merge(directed_position_of_a_twin_pool(seed ^ 0x7717, &mut C07::default()));
     rep.acc = acc;
+    rep.floor("twin_pool_position_attempts", 14);
     rep.floor("position_settlements", 3000);
     rep.floor("position_settlements_with_earned_fees", 500);
     rep.floor("accrual_steps", 5000);
